@@ -16,7 +16,7 @@ the host part of the `is_url` patterns:
   looks at) is unchanged.
 -/
 namespace Ural.UrlPattern
-open Ural.Py Ural.Py.Re Ural.Gen.Patterns Ural.UrlParts Ural.Canonicalize Ural.CanonRoundTrip
+open Ural.Py Ural.Py.Re Ural.Py.Re.Extra Ural.Gen.Patterns Ural.UrlParts Ural.Canonicalize Ural.CanonRoundTrip
 
 /-- the idna decoder maps a host label (a word of `(?:[F][M]{0,62})?[F]`) to a host label -/
 def PunyLabelSafe (puny : Str → Str) : Prop := ∀ l, Label l → Label (puny l)
